@@ -5,7 +5,9 @@ import (
 	"crypto/ecdsa"
 	"crypto/elliptic"
 	"crypto/x509"
+	"encoding/asn1"
 	"fmt"
+	"math/big"
 	"net"
 	"sync"
 	"sync/atomic"
@@ -340,7 +342,7 @@ func c24Check(v compat.Verifier, ps *cppb.PathSegment, beacon bool) (verdict str
 
 func TestC24(t *testing.T) {
 	r := mc.NewRun(t, "C24", mc.Exploration)
-	r.Rule = "segments of 1..N entries (N=4 quick, 10 thorough; with and without peer entries; P-256/384/521 AS keys; hop expiry " +
+	r.Rule = "segments of 1..N entries (N=5 quick, 10 thorough; with and without peer entries; P-256/384/521 AS keys; hop expiry " +
 		"0/1/63/255), built by the real AddASEntry+trust.Signer and by a clean-room signer; for each: every trailing truncation " +
 		"(must verify), every byte of every HeaderAndBody, Signature and of the segment info under each mask, every swap / " +
 		"removal / duplication / foreign insertion of entries, every (entry, wrong signer identity) pair, and per hop expiry " +
@@ -382,7 +384,7 @@ func c24Run(r *mc.Run, budget *atomic.Bool) {
 	}
 	isds := []c24ISD{isd1, isd2}
 	wide := cppki.Validity{NotBefore: now.Add(-24 * time.Hour), NotAfter: now.Add(72 * time.Hour)}
-	maxN := mc.Pick(4, 10)
+	maxN := mc.Pick(5, 10)
 	// honest ASes: position i -> IA; every third one in ISD 2, curves vary.
 	var creds []*c24Cred
 	for i := 0; i < maxN+1; i++ {
@@ -420,7 +422,7 @@ func c24Run(r *mc.Run, budget *atomic.Bool) {
 	}
 	defer store.db.Close()
 	ver := store.verifier(nil)
-	masks := mc.Pick([]byte{0x01}, []byte{0x01, 0x80})
+	masks := mc.Pick([]byte{0x01, 0x80}, []byte{0x01, 0x04, 0x20, 0x80})
 
 	viol := func(key string, d map[string]any) { r.Violation(key, d) }
 	expect := func(class string, want string, key string, what string, v compat.Verifier, ps *cppb.PathSegment, beacon bool) string {
@@ -577,6 +579,24 @@ func c24Run(r *mc.Run, budget *atomic.Bool) {
 				want := "reject"
 				expect("insertion", want, "insertion-accepted", fmt.Sprintf("%s: copy of entry %d inserted at %d", name, i, at), ver, m, false)
 			}
+		}
+		// an earlier entry's signature replaced by ANOTHER VALID signature of the same signer over the same input
+		// (the ECDSA twin (r, n-s)): that entry still verifies by itself, every later entry must not.
+		for i := 0; i < sh.n-1; i++ {
+			m := c24ClonePB(ps)
+			tw, err := c24Twin(m.AsEntries[i].Signed.Signature, entries[i].key)
+			if err != nil {
+				r.HarnessError("twin signature: %v", err)
+				continue
+			}
+			m.AsEntries[i].Signed.Signature = tw
+			expect("earlier-signature-swap", "reject", "earlier-signature-replaced-accepted",
+				fmt.Sprintf("%s: signature of entry %d replaced by its valid ECDSA twin", name, i), ver, m, false)
+			// control: the prefix ending with the re-signed entry is itself fine (the replaced signature is valid)
+			pre := c24ClonePB(m)
+			pre.AsEntries = pre.AsEntries[:i+1]
+			expect("earlier-signature-swap-control", "accept", "twin-control-rejected",
+				fmt.Sprintf("%s: prefix ending at the twin-signed entry %d", name, i), ver, pre, true)
 		}
 		// insertion of an entry that is validly signed in another segment (same info, other chain)
 		if sh.n >= 2 {
@@ -798,6 +818,23 @@ func c24Run(r *mc.Run, budget *atomic.Bool) {
 			{"short-lived cert, segment timestamp before the certificate's NotBefore", mk(&short, ts, 0), "reject"},
 			{"long-lived cert of the same AS", mk(victim, ts, 255), "accept"},
 		}
+		// history element that is not a segment: an ordinary signed control-plane message of the same key, verified with
+		// the same cached verifier without any bound validity (as RPC signatures are)
+		plain := c24RefBuild(nil, []c24Entry{func() c24Entry { e := c24Honest(&short, 0, 0, 0, 0, 0); e.omitInfo = true; return e }()}, now).AsEntries[0].Signed
+		for j := range segs {
+			st, err := c24NewStore(isds, victim.chain(), short.chain())
+			if err != nil {
+				r.HarnessError("trust db: %v", err)
+				return
+			}
+			v := st.verifier(cache.New(time.Minute, 0))
+			if _, err := v.Verifier.Verify(context.Background(), plain); err != nil {
+				r.HarnessError("plain message did not verify: %v", err)
+			}
+			expect("cached-second", segs[j].want, "cached-verifier-ignores-validity",
+				"cached verifier, after verifying an ordinary signed message of the same key: "+segs[j].what, v, segs[j].ps, false)
+			st.db.Close()
+		}
 		for i := range segs {
 			for j := range segs {
 				st, err := c24NewStore(isds, victim.chain(), short.chain())
@@ -822,6 +859,16 @@ func c24Run(r *mc.Run, budget *atomic.Bool) {
 		"the remote trust-material server is modelled by a stub fetcher that applies the real CheckChainsMatchQuery exactly like private/trust/grpc.Fetcher",
 		"unsigned extensions are outside the signed content and are not mutated",
 	}
+}
+
+// c24Twin returns the DER encoding of (r, n-s) for the DER signature (r, s).
+func c24Twin(sig []byte, key *ecdsa.PrivateKey) ([]byte, error) {
+	var v struct{ R, S *big.Int }
+	if _, err := asn1.Unmarshal(sig, &v); err != nil {
+		return nil, err
+	}
+	v.S = new(big.Int).Sub(key.Curve.Params().N, v.S)
+	return asn1.Marshal(v)
 }
 
 func c24Dump(ps *cppb.PathSegment) string {
